@@ -325,6 +325,12 @@ namespace msgpack {
                         bigint q;
                         bigint rem;
                         n.divide(millis_in_second, q, rem, true);
+                        if (q <= bigint((std::numeric_limits<int64_t>::min)()) || q > bigint((std::numeric_limits<int64_t>::max)()))
+                        {
+                            // the seconds field of a timestamp is a signed 64-bit integer
+                            ec = msgpack_errc::invalid_timestamp;
+                            JSONCONS_VISITOR_RETURN;
+                        }
                         auto seconds = static_cast<int64_t>(q);
                         auto nanoseconds = static_cast<int64_t>(rem) * nanos_in_milli;
                         if (nanoseconds < 0)
@@ -355,6 +361,12 @@ namespace msgpack {
                         bigint q;
                         bigint rem;
                         n.divide(nanos_in_second, q, rem, true);
+                        if (q <= bigint((std::numeric_limits<int64_t>::min)()) || q > bigint((std::numeric_limits<int64_t>::max)()))
+                        {
+                            // the seconds field of a timestamp is a signed 64-bit integer
+                            ec = msgpack_errc::invalid_timestamp;
+                            JSONCONS_VISITOR_RETURN;
+                        }
                         auto seconds = static_cast<int64_t>(q);
                         auto nanoseconds = static_cast<int64_t>(rem);
                         if (nanoseconds < 0)
@@ -667,49 +679,32 @@ namespace msgpack {
         JSONCONS_VISITOR_RETURN_TYPE visit_uint64(uint64_t val, 
             semantic_tag tag, 
             const ser_context&,
-            std::error_code&) final
+            std::error_code& ec) final
         {
             switch (tag)
             {
                 case semantic_tag::epoch_second:
+                    if (val > static_cast<uint64_t>((std::numeric_limits<int64_t>::max)()))
+                    {
+                        // the seconds field of a timestamp is a signed 64-bit integer
+                        ec = msgpack_errc::invalid_timestamp;
+                        JSONCONS_VISITOR_RETURN;
+                    }
                     write_timestamp(static_cast<int64_t>(val), 0);
                     break;
                 case semantic_tag::epoch_milli:
                 {
-                    if (val != 0)
-                    {
-                        auto dv = std::div(static_cast<int64_t>(val), static_cast<int64_t>(millis_in_second));
-                        int64_t seconds = dv.quot;
-                        int64_t nanoseconds = dv.rem*nanos_in_milli;
-                        if (nanoseconds < 0)
-                        {
-                            nanoseconds = -nanoseconds; 
-                        }
-                        write_timestamp(seconds, nanoseconds);
-                    }
-                    else
-                    {
-                        write_timestamp(0, 0);
-                    }
+                    // divide as unsigned: the quotient always fits the signed seconds field
+                    const uint64_t seconds = val / static_cast<uint64_t>(millis_in_second);
+                    const uint64_t nanoseconds = (val % static_cast<uint64_t>(millis_in_second)) * static_cast<uint64_t>(nanos_in_milli);
+                    write_timestamp(static_cast<int64_t>(seconds), static_cast<int64_t>(nanoseconds));
                     break;
                 }
                 case semantic_tag::epoch_nano:
                 {
-                    if (val != 0)
-                    {
-                        auto dv = std::div(static_cast<int64_t>(val), static_cast<int64_t>(nanos_in_second));
-                        int64_t seconds = dv.quot;
-                        int64_t nanoseconds = dv.rem;
-                        if (nanoseconds < 0)
-                        {
-                            nanoseconds = -nanoseconds; 
-                        }
-                        write_timestamp(seconds, nanoseconds);
-                    }
-                    else
-                    {
-                        write_timestamp(0, 0);
-                    }
+                    const uint64_t seconds = val / static_cast<uint64_t>(nanos_in_second);
+                    const uint64_t nanoseconds = val % static_cast<uint64_t>(nanos_in_second);
+                    write_timestamp(static_cast<int64_t>(seconds), static_cast<int64_t>(nanoseconds));
                     break;
                 }
                 default:
